@@ -103,6 +103,7 @@ func (r *Value) Pull(ctx context.Context, opts ...ReadOption) <-chan *ValueChang
 	go func() {
 		defer close(typedEvents)
 
+		var last proto.Message
 		if currentValue != nil {
 			change := &ValueChange{Value: currentValue, ChangeTime: changeTime, SeedValue: true, LastSeedValue: true}
 			change = change.filter(filter)
@@ -111,9 +112,9 @@ func (r *Value) Pull(ctx context.Context, opts ...ReadOption) <-chan *ValueChang
 				return // give up sending
 			case typedEvents <- change:
 			}
+			last = change.Value // what the receiver has, to compare like with like
 		}
 
-		last := currentValue
 		for event := range on {
 			change := event.(*ValueChange).filter(filter)
 			if r.equivalence != nil && r.equivalence.Compare(last, change.Value) {
